@@ -231,6 +231,9 @@ func same(a, b ssa.Value, d int) bool {
 	case *ssa.BinOp:
 		y, ok := b.(*ssa.BinOp)
 		return ok && x.Op == y.Op && same(x.X, y.X, d-1) && same(x.Y, y.Y, d-1)
+	case *ssa.Lookup:
+		y, ok := b.(*ssa.Lookup)
+		return ok && x.CommaOk == y.CommaOk && same(x.X, y.X, d-1) && same(x.Index, y.Index, d-1)
 	}
 	return false
 }
